@@ -113,6 +113,18 @@ def classify_delete(sn, idx, c):
 
 def mon_c03(sn):
     bad = []
+    if sn.ok and not sn.domain_ok and sn.strategy in ("RollingUpdate", "OnDelete") and all(p["phase"] != "" for p in sn.claimed):
+        # outside the domain of the classification below (two members claim one ordinal, or a name is not canonical): the three
+        # reasons still apply to each pod by the ordinal its name parses to — a live, up-to-date member of the desired set is never deleted
+        for c in sn.calls:
+            if c["verb"] == "delete" and c["res"] == "pods":
+                p0 = sn.by_name.get(c["name"])
+                o = parse_name(c["name"])[1]
+                if p0 is not None and o >= 0 and o in sn.desired_set and p0["phase"] not in ("Failed", "Succeeded") \
+                        and not p0["term"] and sn.upd is not None and p0["rev"] == sn.upd:
+                    bad.append("delete of pod %s (ordinal %d in the desired set %s, live, at the update revision) has none of the reasons"
+                               % (c["name"], o, sn.desired))
+        return bad
     if not sn.ok or not sn.domain_ok or sn.strategy not in ("RollingUpdate", "OnDelete"):
         return bad
     for i, c in enumerate(sn.calls):
@@ -463,7 +475,23 @@ def mon_c10(sn):
                     bad.append("revision %s adopted although the live set is gone, replaced or being deleted" % n)
     if sn.obs.get("cache_mutated"):
         bad.append("an object read from the informer caches was modified")
+    # pods the set controls whose labels stopped matching are released (owner reference removed) by a reconcile that succeeds
+    api_set = sn.sc["api"].get("set")
+    if sn.obs["result"] == "ok" and not any(c.get("err") for c in calls_all(sn)) and not s["deleting"] and s["selector"] == "ok" \
+            and not sn.paused and api_set is not None and api_set["uid"] == s["uid"] and not api_set["deleting"]:
+        released = {c["name"] for c in sn.calls if c["verb"] == "patch" and c["res"] == "pods" and c.get("kind") == "release"}
+        api_pods = {p["name"] for p in sn.sc["api"]["pods"]}
+        for p in sn.sc["cache"]["pods"]:
+            o = p["owner"]
+            if o is not None and o.get("controller", True) and o["uid"] == s["uid"] and not p["match"] and p["name"] in api_pods \
+                    and p["name"] not in released:
+                bad.append("pod %s is controlled by the set and no longer matches its selector, but was not released" % p["name"])
+                break
     return bad
+
+
+def calls_all(sn):
+    return sn.calls
 
 
 def mon_c08(sn, faulty):
@@ -499,6 +527,15 @@ def mon_c08(sn, faulty):
                 bad.append("revision %s renumbered to %s, expected %d (above all others)" % (c["name"], c.get("revision"), mx + 1))
             if listed[c["name"]]["tmpl"] != s["tmpl"]:
                 bad.append("revision %s renumbered although its data is not the set's template" % c["name"])
+    # (e') after ANY successful reconcile (a conflict on the way included) the revision named as update revision is numbered
+    # at least as high as every other revision of the set
+    if sn.obs["result"] == "ok" and sn.upd is not None and getattr(sn, "final", None):
+        fin = {r["name"]: r for r in sn.final["revs"]}
+        r = fin.get(sn.upd)
+        if r is not None and sn.upd in listed:
+            higher = [q["name"] for n, q in fin.items() if n in listed and n != sn.upd and q["revision"] > r["revision"]]
+            if higher:
+                bad.append("the reconcile succeeded, status.updateRevision %s has Revision %d, which is below %s" % (sn.upd, r["revision"], higher[:2]))
     # (c) after a successful fault-free reconcile the update revision is stored and mirrors the template
     if not faulty and sn.obs["result"] == "ok" and sn.upd is not None and getattr(sn, "final", None):
         fin = {r["name"]: r for r in sn.final["revs"]}
@@ -519,6 +556,8 @@ def mon_c06(sn, faulty):
     for i, c in enumerate(calls):
         if c["res"] == "persistentvolumeclaims" and c["verb"] != "create":
             bad.append("claim %s %s: the controller may only create claims" % (c["verb"], c["name"]))
+        if c.get("ns"):
+            bad.append("%s %s %s issued in namespace %s, not in the set's" % (c["verb"], c["res"], c.get("name", ""), c["ns"]))
         if c["res"] == "persistentvolumeclaims" and c["verb"] == "create" and s["selector"] == "ok":
             if "app=%s" % (s.get("app") or s["name"]) not in (c.get("labels") or []):
                 bad.append("claim %s created without the selector's match labels (%s)" % (c["name"], c.get("labels")))
